@@ -9,7 +9,7 @@ use serde_json::{json, Value as J};
 
 pub static PROP: Prop = Prop {
     id: "C02",
-    rule: "cases: token sequences operand (op operand)* with 1-12 operands, op drawn from all 32 built-in infix operators (all 11 levels, both associativities), optionally written `not OP`; operands carry 0-3 prefix operators and at most one postfix operator and are literals, names, calls, lists, maps, parenthesised sub-sequences (depth <= 4) ; a `? :` tail with probability ~1/3 at every expression level; several statements. Oracle: an independent precedence-climbing reference parser over the same tokens; and, model-free, the reference tree rendered fully parenthesised must parse to the same tree. Plus exhaustive: all ordered pairs of the 32 infix operators x {plain, not} x {no conditional, conditional tail} and all triples over one representative per (level, associativity). Non-trivial: the reference tree has an infix operator directly under another infix operator, or a `not OP`, or a conditional together with an infix operator, or a prefix over a postfix; distinct by operator skeleton (tree shape with operator names, leaves erased).",
+    rule: "cases: token sequences operand (op operand)* with 1-12 operands, op drawn from all 32 built-in infix operators (all 11 levels, both associativities), optionally written `not OP`; operands carry 0-3 prefix operators and at most one postfix operator and are literals, names, calls, lists, maps, parenthesised sub-sequences (depth <= 4) ; a `? :` tail with probability ~1/3 at every expression level; several statements. Every program is parsed twice: on one line, and laid out over several lines (line breaks, tabs, CR LF, indentation between the tokens). Oracle: an independent precedence-climbing reference parser over the same tokens; and, model-free, the reference tree rendered fully parenthesised must parse to the same tree. Plus exhaustive: all ordered pairs of the 32 infix operators x {plain, not} x {no conditional, conditional tail} and all triples over one representative per (level, associativity). Non-trivial: the reference tree has an infix operator directly under another infix operator, or a `not OP`, or a conditional together with an infix operator, or a prefix over a postfix; distinct by operator skeleton (tree shape with operator names, leaves erased).",
     assumptions: &[
         "the reference parser implements the property statement (LEFT for calculation operators, RIGHT for assignments, `in` at 200, conditional below every infix operator and right-nesting, prefix tighter than infix, postfix tighter than prefix); it is cross-checked on every case by the fully parenthesised rendering",
         "at most one postfix operator per atom is generated (more is undocumented)",
@@ -123,6 +123,30 @@ pub fn check_tokens(toks: &[Tok], tab: &OpTable, st: &mut Stats) -> CaseResult {
             if got != want {
                 let sig = if f.not_form { "grouping:not-form" } else if f.cond { "grouping:with-conditional" } else { "grouping" };
                 return Err(Failure::new(sig, format!("{}\n    engine   : {}\n    reference: {}", text, got, want), case));
+            }
+        }
+    }
+    // the same token sequence written over several lines (line breaks, tabs and indentation
+    // between the tokens): grouping is a matter of the operators, not of the layout
+    {
+        const SEPS: [&str; 6] = ["\n", " ", "\n    ", "\t", "\r\n", "  "];
+        let mut h = toks.len() * 31 + text.len();
+        let mut laid = String::new();
+        for (i, t) in toks.iter().enumerate() {
+            if i > 0 {
+                h = h.wrapping_mul(6364136223846793005usize).wrapping_add(t.text.len() + i);
+                laid.push_str(SEPS[(h >> 33) % SEPS.len()]);
+            }
+            laid.push_str(&t.text);
+        }
+        match parse_sexp(&laid) {
+            Ok(Ok(got)) if got == want => {}
+            other => {
+                return Err(Failure::new(
+                    "grouping:multi-line-layout",
+                    format!("{:?}\n    engine   : {:?}\n    reference: {}", laid, other, want),
+                    json!({"text": laid}),
+                ))
             }
         }
     }
